@@ -297,6 +297,12 @@ func mutatePlan(r *RNG, p *SrvPlan) {
 			l.Ops[oi].StreamRef = Pick(r, -1, 2, 1+2*r.Intn(6), 1001)
 		case 5: // raw frame of any type
 			raw := Op{Kind: "raw", RawType: uint8(r.Intn(12)), RawFlags: uint8(r.Intn(256)), RawLen: Pick(r, 0, 1, 4, 5, 8, 9, 100), Pad: -1, TableSize: -1, StreamRef: Pick(r, 0, -1, 3)}
+			if r.Intn(4) == 0 {
+				// a padded DATA or HEADERS frame whose Pad Length octet is the payload length itself, or one off
+				L := Pick(r, 1, 2, 5, 9, 100)
+				raw.RawType, raw.RawFlags = uint8(Pick(r, 0, 1)), uint8(0x08|Pick(r, 0, 1, 4, 5))
+				raw.RawHex, raw.RawLen = fmt.Sprintf("%02x", Pick(r, L, L, L-1, L+1)), L-1
+			}
 			l.Ops = append(l.Ops[:oi], append([]Op{raw}, l.Ops[oi:]...)...)
 		case 6: // swap with the next op
 			if oi+1 < len(l.Ops) {
